@@ -13,6 +13,9 @@ pub enum Outcome {
     Hang,
     /// The process died (abort, stack overflow, memory).
     Crash(String),
+    /// Not run: an earlier case of the same batch hung or crashed the process (the engine stops
+    /// at the first violation of a definition, so these outcomes are never judged as verdicts).
+    NotRun,
 }
 
 pub struct Server {
@@ -82,8 +85,17 @@ impl Server {
             Ok(_) => infra("lexer server answered with the wrong number of traces"),
             Err(_) if cases.len() > 1 => {
                 let mut out = Vec::with_capacity(cases.len());
+                let mut dead = false;
                 for c in cases {
-                    out.extend(self.run(lexer_idx, &[*c]));
+                    if dead {
+                        out.push(Outcome::NotRun);
+                        continue;
+                    }
+                    let o = self.run(lexer_idx, &[*c]);
+                    if matches!(o[0], Outcome::Hang | Outcome::Crash(_)) {
+                        dead = true;
+                    }
+                    out.extend(o);
                 }
                 out
             }
